@@ -69,7 +69,8 @@ def _alias_form(variant):
 
 def dtcode(dt):
     dt = np.dtype(dt)
-    return ord(dt.kind) * 1000 + dt.itemsize
+    # numpy's dtype comparison (what `_get_output` uses) distinguishes byte orders: part of the canonical code
+    return ord(dt.kind) * 1000 + dt.itemsize + (0 if dt.isnative else 500)
 
 
 REG = {}
@@ -77,7 +78,7 @@ REG = {}
 
 def reg(path, genf, dims=(1, 2, 3), flow='kernel', res='same', req=('dtype', 'shape', 'contig'), alias=False, inp=0, aflow=None):
     REG[path] = dict(path=path, gen=genf, dims=dims, flow=flow, res=res, req=set(req), alias=alias, inp=inp,
-                     aflow=aflow or {'label': 'inplace', 'convolve1d': 'kernel', 'gaussian1d': 'kernel', 'zoom': 'kernel', 'hitmiss': 'kernel'}.get(flow, flow))
+                     aflow=aflow or {'label': 'inplace', 'convolve1d': 'kernel', 'gaussian1d': 'kernel', 'zoom': 'kernel', 'hitmiss': 'hitmiss'}.get(flow, flow))
 
 
 def _registry():
@@ -563,7 +564,8 @@ def _eval_out(cases):
                 if touched:
                     findings.append(dict(kind='property', key=_key(e, param, variant, 'touched-on-rejection'), detail=det))
                 tags['byteswapped'] = 'rejected'
-            valid = None
+            # a rejection is also what the Lean decision function predicts (the dtype codes differ): compared below
+            valid = None if outcome[0] == 'ok' else False
         if valid is True:
             if outcome[0] == 'exc':
                 findings.append(dict(kind='property', key=_key(e, param, variant, 'valid-rejected'), detail=det))
